@@ -112,6 +112,7 @@ func debMessage(p *dec.Package) []byte {
 func c10(run *ev.Run, tier string) {
 	n := ncases(80, 800, tier)
 	run.Rule = "cases = generated payloads/metadata x {deb debsign origin/maint/archive/default, deb dpkg-sig, rpm, apk} x {PGP key armored/binary/protected/subkey-only/with key id; RSA pkcs1/pkcs8/protected; signing callback} x all deb/rpm compressions. The signature is extracted from the built package and verified by the harness (go-crypto CheckDetachedSignature / clearsign, crypto/rsa.VerifyPKCS1v15; gpgv and openssl when installed) over the bytes the format's verifier uses, recomputed from the STORED members; callbacks record the bytes they receive, which must be exactly those bytes; dpkg-sig manifest lines must match stored members. Failure injection: failing callbacks, wrong passphrase, invalid debsign type -> error must satisfy errors.As(*nfpm.ErrSigningFailure) and errors.Is(signer's error). Further scenarios: generated RSA-2048/3072/4096 keys against gpg, keys locked with odd passphrases (PGP and apk RSA), rotated key files, key files holding further public keys, a passphrase configured for an unprotected key, SOURCE_DATE_EPOCH set while signing, key ids that expand to nothing, callback and key file configured together, an apk key name next to a maintainer without mail address. non-trivial = signature verified over a payload with >=1 regular file; distinct = (format, method, type, key kind, compression)"
+	run.Rule += "; through the nfpm binary: a failing signing run over the package an earlier run left at the target"
 	kr := loadKeyring(run)
 	if kr == nil {
 		return
